@@ -253,28 +253,36 @@ impl MainEvent {
         let mut trigger_timestamp = None;
         // Need to group chunks by board and chip.
         let mut pwb_chunks_map: HashMap<_, Vec<_>> = HashMap::new();
+        let mut wire_bank_names = Vec::new();
 
         for (bank_name, data_slice) in banks {
             match MainEventBankName::try_from(bank_name)? {
                 MainEventBankName::Alpha16(Alpha16BankName::A32(bank_name)) => {
                     let packet = AdcPacket::try_from(data_slice)?;
-                    let waveform = packet.waveform();
-                    if waveform.is_empty() {
-                        continue;
+                    // The following checks also apply to packets without any
+                    // usable samples (suppressed, or shorter than the delay).
+                    if wire_bank_names.contains(&bank_name) {
+                        return Err(TryMainEventFromDataBanksError::DuplicateWireBank {
+                            bank_name,
+                        });
                     }
-                    // Given that the waveform is not empty, we can safely
-                    // unwrap.
-                    let board_id = packet.board_id().unwrap();
+                    wire_bank_names.push(bank_name);
                     let alpha16::ChannelId::A32(channel_id) = packet.channel_id() else {
                         return Err(TryMainEventFromDataBanksError::WireBankWithBvChannel {
                             bank_name,
                         });
                     };
+                    // A suppressed packet doesn't carry the board id.
+                    let board_id = packet.board_id().unwrap_or(bank_name.board_id());
                     if (bank_name.board_id(), bank_name.channel_id()) != (board_id, channel_id) {
                         return Err(TryMainEventFromDataBanksError::Alpha16IdMismatch {
                             expected: (bank_name.board_id(), bank_name.channel_id()),
                             found: (board_id, channel_id),
                         });
+                    }
+                    let waveform = packet.waveform();
+                    if waveform.is_empty() {
+                        continue;
                     }
 
                     let wire_position = TpcWirePosition::try_new(run_number, board_id, channel_id)?;
